@@ -174,6 +174,7 @@ static void cx_scratch_clean(void)
 }
 static void cx_scratch_fini(void)
 {
+    if (__real_getenv("CX_KEEP_SCRATCH")) return;       /* debugging aid: inspect the last case's files */
     cx_scratch_clean();
     if (chdir("/")) { }
     rmdir(cx_scr);
@@ -635,7 +636,7 @@ static int cx_ctxs_lookup(const cx_ctxs *c, const char *name)
 /* ================================================================== A.5 line-grammar model
  * Files live in a small in-memory table (the generator registers what it wrote).
  */
-#define CX_MAXFILES 64
+#define CX_MAXFILES 320
 typedef struct { char name[48]; cx_buf data; } cx_file;
 static cx_file cx_files[CX_MAXFILES]; static int cx_nfiles;
 static void cx_files_reset(void) { for (int i = 0; i < cx_nfiles; i++) cx_buf_reset(&cx_files[i].data); cx_nfiles = 0; }
